@@ -3,32 +3,9 @@
   Theorems about NibiruModel.Inflation (x/inflation/keeper/hooks.go, inflation.go, types/inflation_calculation.go).
 -/
 import NibiruModel.Inflation
+import NibiruProofs.DecLemmas
 namespace Nibiru.Inflation
 open Nibiru.Dec
-
-/-! ### decimal helpers -/
-
-theorem chopRoundNat_mul_prec (x : Int) (hx : 0 ≤ x) : chopRoundNat (x * prec) = x := by
-  unfold chopRoundNat prec
-  simp only [Int.mul_emod_left, if_true]
-  omega
-
-theorem chopRound_mul_prec (x : Int) : chopRound (x * prec) = x := by
-  unfold chopRound
-  by_cases h : x * prec < 0
-  · have hx : x < 0 := by unfold prec at h; omega
-    simp only [h, if_true]
-    have : -(x * prec) = (-x) * prec := by rw [Int.neg_mul]
-    rw [this, chopRoundNat_mul_prec (-x) (by omega)]; omega
-  · have hx : 0 ≤ x := by unfold prec at h; omega
-    simp only [h, if_false]; exact chopRoundNat_mul_prec x hx
-
-/-- NewDecFromInt(m).Mul(p) is exactly m·p (no rounding happens) -/
-theorem mul_ofInt (m p : Int) : mul (ofInt m) p = m * p := by
-  unfold mul ofInt
-  have : m * prec * p = (m * p) * prec := by
-    rw [Int.mul_assoc, Int.mul_comm prec p, ← Int.mul_assoc]
-  rw [this, chopRound_mul_prec]
 
 theorem proportion_eq (m p : Int) (hm : 0 ≤ m) (hp : 0 ≤ p) : proportion m p = (m * p) / prec := by
   unfold proportion truncateInt
